@@ -110,8 +110,19 @@ ALIAS_ITER_MARKS = ("get_deprecated_option(", "rev_r_dic[", "r_dic")
 
 
 def _alias_loops(repo, f: Func) -> List[ast.For]:
-    return [n for n in _own_nodes(repo, f) if isinstance(n, ast.For) and any(m in ast.unparse(n.iter) for m in ALIAS_ITER_MARKS)
-            and not isinstance(n.iter, ast.Call) or (isinstance(n, ast.For) and any(m in ast.unparse(n.iter) for m in ALIAS_ITER_MARKS))]
+    """for-loops whose iterable (directly or through a single-assignment local) is a list of deprecated aliases."""
+    res = Resolver(f.node)
+    out = []
+    for n in _own_nodes(repo, f):
+        if isinstance(n, ast.For):
+            t = ast.unparse(n.iter) + " " + res.text(n.iter)
+            if isinstance(n.iter, ast.Name):
+                for a in ast.walk(f.node):
+                    if isinstance(a, ast.Assign) and any(isinstance(x, ast.Name) and x.id == n.iter.id for x in a.targets):
+                        t += " " + ast.unparse(a.value)
+            if any(m in t for m in ALIAS_ITER_MARKS):
+                out.append(n)
+    return out
 
 
 def r07_2(ctx):
@@ -125,8 +136,6 @@ def r07_2(ctx):
         f = repo.func(q)
         ctx.analysed(q)
         for loop in _alias_loops(repo, f):
-            if any(isinstance(p, ast.For) and p is not loop and loop in list(ast.walk(p)) and p in _alias_loops(repo, f) for p in _alias_loops(repo, f)):
-                pass
             n_loops += 1
             targets = {t.id for t in ast.walk(loop.target) if isinstance(t, ast.Name)}
             assigned: Dict[str, ast.AST] = {}
